@@ -152,8 +152,9 @@ def _ref_eq(inputs, output):
 
 
 def _arrays(shapes, sd):
+    # positive entries: no zero intermediates, so strip_exponent (log10 of max|x|) is well defined
     rng = np.random.default_rng(sd)
-    return [rng.integers(-3, 4, size=s).astype(float) for s in shapes]
+    return [rng.integers(1, 6, size=s).astype(float) for s in shapes]
 
 
 # --------------------------------------------------------------------------
@@ -463,6 +464,21 @@ def pools(tier="quick"):
         P["4-ring output/hyper variants"] = [mkspec(ring, o, S, "greedy") for o in ((), ("a",), ("a", "c"), ("c", "a"))]
         P["4-ring optimize"] = [mkspec(ring, ("a", "c"), S, o) for o in ("greedy", "optimal", ((0, 1), (0, 1), (0, 1)), ((0, 2), (0, 1), (0, 1)), [[2, 3], [0, 1], [0, 1]])]
         P["edge paths"] = [mkspec(ins, out, S, o) for o in (("b", "c"), ("c", "b"), ["b", "c"], ((0, 1), (0, 1)))]
+        # generated pools on sampled 3-tensor networks: output variants and option variants
+        rng = random.Random(seed() * 7 + 1313)
+        nets = [nw for nw in scope.sample_networks(3, 4, 3, 400, rng) if len({s for t in nw[0] for s in t}) >= 2]
+        for k, (i3, _o3) in enumerate(nets[:24]):
+            syms = sorted({s for t in i3 for s in t})
+            sz = {s: 2 + (j % 3) for j, s in enumerate(syms)}
+            outs = []
+            for _ in range(12):
+                o = tuple(rng.sample(syms, rng.randint(0, min(3, len(syms)))))
+                if o not in outs:
+                    outs.append(o)
+            P[f"generated {k}: outputs of {','.join(''.join(t) for t in i3)}"] = [mkspec(i3, o, sz, "greedy") for o in outs[:4]]
+            if k % 3 == 0:
+                P[f"generated {k}: options of {','.join(''.join(t) for t in i3)}"] = [
+                    mkspec(i3, outs[0], sz, "greedy", kw) for kw in ({}, {"strip_exponent": True}, {"prefer_einsum": True}, {"implementation": "autoray"})]
     return P
 
 
